@@ -5,7 +5,7 @@ and keeper-level LP functions, evaluated inside Coq; spec checker on the real ob
 import json, os
 
 FILES = ["Base/Prelude.v", "Base/Dec.v", "Model/Layer2.v", "Model/C20Check.v", "Proofs/Layer2.v", "Proofs/Layer2Lp.v", "Proofs/Layer2Chk.v"]
-ORDER = ["user", "reject", "escrow", "frame", "total-sum", "max", "refund", "held", "pool-native", "lp-supply", "nofree-step", "nofree"]
+ORDER = ["user", "reject", "escrow", "frame", "burn", "total-sum", "max", "refund", "held", "pool-native", "lp-supply", "nofree-step", "nofree"]
 
 
 def observe(R, n, seed=None):
@@ -27,7 +27,11 @@ def features(case, s, users):
     steps = case["steps"]
     st = steps[s]
     prev = steps[s - 1] if s > 0 else {"dapps": [], "bonds": [], "now": 0}
-    minthr, maxthr = case["min_raw"] * 1000000, case["max_raw"] * 1000000
+    cur = {"Min": case["min_raw"], "Max": case["max_raw"], "Dur": case["duration"]}
+    for x in steps[:s]:
+        if x["op"] == "setcfg" and x.get("cfg"):
+            cur = x["cfg"]
+    minthr, maxthr, duration = cur["Min"] * 1000000, cur["Max"] * 1000000, cur["Dur"]
     op = st["op"]
     if op == "create":
         if st["name"] == "":
@@ -42,7 +46,7 @@ def features(case, s, users):
         for x in steps[:s]:
             if x["op"] == "create" and x["ok"]:
                 ctime[x["name"]] = x["now"]
-        due = [d["name"] for d in prev["dapps"] if d["status"] == 0 and ctime.get(d["name"], 0) + case["duration"] <= st["now"]
+        due = [d["name"] for d in prev["dapps"] if d["status"] == 0 and ctime.get(d["name"], 0) + duration <= st["now"]
                and int(d["total"]) < minthr]
         feats = set()
         for n in due:
@@ -59,6 +63,11 @@ def features(case, s, users):
             if f in feats:
                 return f
         return "none"
+    if op == "upsert":
+        old = [d for d in prev["dapps"] if d["name"] == st["name"]]
+        if old and int(old[0]["total"]) != st.get("total", 0):
+            return "total-rewritten"
+        return "none"
     if op == "kconvert" and st.get("name") == st.get("name2"):
         return "same-dapp"
     if any(d["name"] == "" for d in prev["dapps"]) and st.get("name") == "":
@@ -70,13 +79,15 @@ def sig_of(case, clauses, users):
     cl = sorted(clauses, key=lambda c: ORDER.index(c.split("@")[0]) if c.split("@")[0] in ORDER else 99)
     name, step = cl[0].split("@")
     s = int(step)
+    if case["steps"][s]["op"] == "upsert" and any(c.startswith("pool-native@") for c in cl):
+        name = "pool-native"     # a rewritten TotalBond shows as total-sum / held / pool-native: one signature
     return "%s:%s:%s" % (name, case["steps"][s]["op"], features(case, s, users)), s
 
 
 def brief(case, s):
     st = case["steps"][s]
-    hist = [{k: x[k] for k in ("op", "u", "name", "name2", "den", "amt", "fee", "ok") if k in x} for x in case["steps"][:s + 1]]
-    return {"kind": case["kind"], "min_raw": case["min_raw"], "max_raw": case["max_raw"], "duration": case["duration"],
+    hist = [{k: x[k] for k in ("op", "u", "name", "name2", "den", "amt", "fee", "ok", "status", "total", "ctime", "ptime", "liq", "cfg", "now") if k in x} for x in case["steps"][:s + 1]]
+    return {"kind": case["kind"], "cfg": case.get("cfg"), "min_raw": case["min_raw"], "max_raw": case["max_raw"], "duration": case["duration"],
             "failing_step": s, "history": hist, "before": case["steps"][s - 1] if s else None, "after": st}
 
 
